@@ -181,9 +181,64 @@ class Program:
             m = Module(modname, rel, src, tree)
             m.imports = import_aliases(tree)
             self.modules[modname] = m
+        self._unalias_package_modules()
         for m in self.modules.values():
             self._index(m)
         self._literal_tuples()
+
+    def _unalias_package_modules(self) -> None:
+        """`from optyx.core import expressions as ex` ... `ex.Constant`  ->  `Constant` (with the import recorded as if it
+        had been `from optyx.core.expressions import Constant`): the rules read class and function names bare.  Done only
+        for modules of the package, for names that module defines at top level, and only where the bare name is not bound
+        to anything else in the importing module."""
+        tops = {}
+        for mn, m in self.modules.items():
+            names = set()
+            for st in m.tree.body:
+                if isinstance(st, (ast.FunctionDef, ast.AsyncFunctionDef, ast.ClassDef)):
+                    names.add(st.name)
+                elif isinstance(st, ast.Assign):
+                    names |= {t.id for t in st.targets if isinstance(t, ast.Name)}
+                elif isinstance(st, ast.AnnAssign) and isinstance(st.target, ast.Name):
+                    names.add(st.target.id)
+            tops[mn] = names
+        for mn, m in self.modules.items():
+            alias = {}
+            for n in ast.walk(m.tree):
+                if isinstance(n, ast.ImportFrom) and n.module and n.level == 0:
+                    for a in n.names:
+                        full = f"{n.module}.{a.name}"
+                        if full in self.modules:
+                            alias[a.asname or a.name] = full
+                elif isinstance(n, ast.Import):
+                    for a in n.names:
+                        if a.asname and a.name in self.modules:
+                            alias[a.asname] = a.name
+            if not alias:
+                continue
+            bound = set(tops[mn]) | {k for k in m.imports if k not in alias}
+            for n in ast.walk(m.tree):
+                if isinstance(n, ast.Name) and isinstance(n.ctx, ast.Store):
+                    bound.add(n.id)
+                elif isinstance(n, ast.arg):
+                    bound.add(n.arg)
+            done = {}
+
+            class R(ast.NodeTransformer):
+                def visit_Attribute(self, node):
+                    self.generic_visit(node)
+                    if isinstance(node.value, ast.Name) and node.value.id in alias and isinstance(node.ctx, ast.Load):
+                        tgt = alias[node.value.id]
+                        if node.attr in tops.get(tgt, ()) and (node.attr not in bound or done.get(node.attr) == tgt):
+                            done[node.attr] = tgt
+                            return ast.copy_location(ast.Name(id=node.attr, ctx=ast.Load()), node)
+                    return node
+
+            R().visit(m.tree)
+            if done:
+                _set_parents(m.tree)
+                for nm, tgt in done.items():
+                    m.imports.setdefault(nm, f"{tgt}.{nm}")
 
     def _literal_tuples(self) -> None:
         from . import astutil
